@@ -22,7 +22,7 @@ LIST_OPS = ['append', 'insert', 'extend', 'pop', 'pop_i', 'remove', 'del_i', 'de
 DICT_OPS = ['set', 'set_missing', 'del', 'get', 'getitem', 'pop', 'pop_default', 'popitem', 'setdefault', 'setdefault_none',
             'update', 'update_kw', 'ior', 'or', 'clear', 'copy', 'contains', 'rebind_1', 'rebind_2', 'rebind_del',
             'set_nested', 'views']
-REACH_POINTS = ['list.' + o for o in LIST_OPS] + ['dict.' + o for o in DICT_OPS] + ['slice.lemma']
+REACH_POINTS = ['list.rebind_long'] + ['list.' + o for o in LIST_OPS] + ['dict.' + o for o in DICT_OPS] + ['slice.lemma']
 
 _ERR = (IndexError, KeyError, ValueError, TypeError)
 
@@ -455,6 +455,47 @@ def h_dict2(params, p0, p1, p2, p3, p4, x0, x1, x2, x3, x4, ki, kj, v, w, q0, q1
   return apply_dict_op(params['op2'], sut, ref, kj, ki, w, v, obits, (y0, y1, y2, y3, y4))
 
 
+def h_rebind_long(params, i, j, ki, kj, third, k3):
+  """Batched rebind on a list long enough for two-digit indices: the entries address the list as it was before the call
+  (documented), whatever their textual order; reference = the same edits applied to a Python list from the highest index down."""
+  from engine.chx import concretize, untraced
+  n = params['n']
+  # one-digit indices, the 9/10 boundary, two-digit indices, one past the end
+  dom = [0, 1, 2, 9, 10, 11, 12]
+  i, j = concretize(i, dom), concretize(j, dom)
+  if i == j:
+    raise Assume()
+  ki, kj = concretize(ki, (0, 1, 2)), concretize(kj, (0, 1, 2))
+  edits = {i: ki, j: kj}
+  if params.get('third') is not None:
+    edits[params['third']] = 0
+  with untraced():
+    ref = list(range(n))
+    sut = pg.List(list(range(n)))
+    updates = {}
+    for idx, kind in edits.items():
+      if kind == 2 and idx >= n:
+        raise Assume()                 # nothing to delete there
+      updates[idx] = [100 + idx, pg.Insertion(200 + idx), MISSING][kind]
+    for idx in sorted(edits, reverse=True):
+      kind = edits[idx]
+      if kind == 0:
+        if idx >= len(ref):
+          ref.append(100 + idx)
+        else:
+          ref[idx] = 100 + idx
+      elif kind == 1:
+        ref.insert(idx, 200 + idx)
+      else:
+        del ref[idx]
+    reach('list.rebind_long')
+    try:
+      sut.rebind(updates)
+    except _ERR as e:
+      return Violation('list.rebind_long:raises:' + _fam(e), f'{updates!r}: {e!r}'[:300])
+    return _check_list_views('list.rebind_long', sut, ref)
+
+
 USES_OTHER = {'update', 'ior', 'or'}
 HEAVY_LIST = {'set_slice', 'get_slice', 'del_slice'}
 CORE2 = ['append', 'insert', 'pop_i', 'set_i', 'del_i', 'reverse', 'sort', 'iadd', 'extend', 'rebind_insert', 'set_slice']
@@ -468,6 +509,10 @@ def shards(tier, seed):
     maxlen = 3 if (quick or op in HEAVY_LIST) else 4
     out.append(dict(name=f'list:{op}', fn='h_list', params=dict(op=op, maxlen=maxlen, maxarg=2 if quick else 3),
                     args=_LIST_ARGS, budget_s=45 if quick else 600, per_path_s=15))
+  for third in (None, 5):
+    out.append(dict(name=f'list:rebind_long:{third}', fn='h_rebind_long', params=dict(n=12, third=third),
+                    args=[('i', 'int'), ('j', 'int'), ('ki', 'int'), ('kj', 'int'), ('third', 'bool'), ('k3', 'int')],
+                    budget_s=120 if quick else 600, expect_s=30, per_path_s=15))
   for sign in (1, -1):
     out.append(dict(name=f'slice_lemma:{"pos" if sign > 0 else "neg"}', fn='h_slice_lemma',
                     params=dict(sign=sign, maxlen=4 if quick else 6),
